@@ -17,7 +17,7 @@ func genC12(tier string, seed int64) (*Family, error) {
 		PkgPath:    modPath + "/zz_verif/" + pkg,
 		Files:      map[string]string{},
 		Bounds:     map[string]interface{}{"rules_in_set": 3, "name_lists": "sub-lists and permutations of <= 3 existing names, one unknown name at every position, all-unknown, empty, wrong length for N-M"},
-		Cfg:        interp.Config{MaxSteps: 3_000_000, TrackAllocs: []string{"eMsg"}, TrackFields: []string{"engine.Gengine.returnResult"}},
+		Cfg:        interp.Config{MaxSteps: 3_000_000, TrackAllocs: []string{"*"}, TrackFields: []string{"engine.Gengine.returnResult"}},
 		Functions: []string{"ExecuteSelectedRules", "ExecuteSelectedRulesWithControl", "ExecuteSelectedRulesWithControlAsGivenSortedName", "ExecuteSelectedRulesWithControlAndStopTag",
 			"ExecuteSelectedRulesWithControlAndStopTagAsGivenSortedName", "ExecuteSelectedRulesConcurrent", "ExecuteSelectedRulesMixModel", "ExecuteSelectedRulesInverseMixModel",
 			"ExecuteSelectedNSortMConcurrent", "ExecuteSelectedNConcurrentMSort", "ExecuteSelectedNConcurrentMConcurrent"},
